@@ -204,6 +204,9 @@ PROGRAMMES = {
     "poly_slow": ("polynomial", [333.15, 0.002]),  # 2 mK per hour: a non-isothermal run whose temperatures are all "close"
     "cold_hold": ("polynomial", [313.15, 1e-3]),  # far below a hot stated initial temperature from the first programme point on
     "poly_cross0": ("polynomial", [300.0, -400.0]),  # crosses 0 K within the first step(s)
+    # programmes that DIVERGE at one grid time in the middle of a run (ordinary temperatures before and after): +inf at t = 2 h
+    "log_sing2": ("logarithmic", [-100.0, 0.14753266960496006, -0.14753266960496006, 0.036883167401240015]),  # T = -100 ln(k (t - 2)^2)
+    "exp_overflow": ("exponential", [330.0, 0.0, -800.0, 800.0]),  # 330 K at t = 0 and 1 h, overflow from t = 2 h on
     "log_t0": ("logarithmic", [40.0, 0.0, 5962.0]),  # -inf at t = 0, about 320 K at t = 0.5 h: only the STATED initial temperature is valid at step 0
 }
 
